@@ -106,3 +106,126 @@ def tt_apply_mask(E, s):
     ref = tn.cat(vals, 0)
     E.true('is_tensor', tn.is_tensor(r))
     E.eq('value', r, ref)
+
+
+# ---------------------------------------------------------------------------------------------- shape level
+def _ref_slice_len(n, start, stop, step):
+    """independent reference: number of elements selected by slice(start, stop, step) on an axis of size n (step >= 1);
+    comparisons on symbolic values branch in the explorer, so each path sees one closed form"""
+    if start is None:
+        lo = 0
+    elif start < 0:
+        lo = start + n
+        if lo < 0:
+            lo = 0
+    else:
+        lo = start
+        if lo > n:
+            lo = n
+    if stop is None:
+        hi = n
+    elif stop < 0:
+        hi = stop + n
+        if hi < 0:
+            hi = 0
+    else:
+        hi = stop
+        if hi > n:
+            hi = n
+    if hi <= lo:
+        return 0
+    if step is None or (isinstance(step, int) and step == 1):
+        return hi - lo
+    return (hi - lo + step - 1) // step
+
+
+@scenario
+def getitem_shape(E, s):
+    """x[index] has exactly the shape dense indexing gives, for symbolic mode sizes and symbolic int / slice bounds"""
+    from .c18 import s_tt, all_eq, attempt
+    B = s.get('B', 4)
+    d = s['d']
+    kind = 'ttm' if s.get('ttm') else 'tt'
+    x, N, M, R = s_tt(E, 'x', d, kind, B)
+    axes = (list(M) + list(N)) if kind == 'ttm' else list(N)
+    key = []
+    ref = []
+    valid = True
+    ax = 0
+    nsym = 0
+    spec = s['index']
+    n_cons = sum(1 for it in spec if it not in ('none', 'ell'))
+    for it in spec:
+        if it == 'none':
+            key.append(None)
+            ref.append(1)
+        elif it == 'ell':
+            key.append(Ellipsis)
+            m = len(axes) - n_cons
+            ref.extend(axes[ax:ax + m])
+            ax += m
+        elif it == 'int':
+            i = E.dim('i%d' % nsym, -B - 1, B)
+            nsym += 1
+            key.append(i)
+            valid = valid & (i >= -axes[ax]) & (i < axes[ax])
+            ax += 1
+        elif it[0] == 'slice':
+            parts = []
+            for j, p in enumerate(it[1:4]):
+                if p == 'sym':
+                    lo, hi = (-B - 1, B + 1) if j < 2 else (1, 3)
+                    parts.append(E.dim('s%d' % nsym, lo, hi))
+                    nsym += 1
+                else:
+                    parts.append(p)
+            key.append(slice(parts[0], parts[1], parts[2]))
+            ref.append(_ref_slice_len(axes[ax], parts[0], parts[1], parts[2]))
+            ax += 1
+        else:
+            raise ValueError(it)
+    ref.extend(axes[ax:])
+    k = tuple(key) if not s.get('bare') else key[0]
+    ok, r, exc = attempt(E, lambda: x[k])
+    if ok:
+        E.true('returned_only_for_valid_index', valid)
+        all_int = all(it in ('int', 'ell') for it in spec) and n_cons == len(axes)
+        if isinstance(r, E.tt.TT):
+            got = (list(r.M) + list(r.N)) if r.is_ttm else list(r.N)
+            # a TT matrix result keeps its modes as (row..., col...) pairs: reference rows then columns
+            if kind == 'ttm':
+                half = len(spec) // 2
+                rows, cols = [], []
+                # rebuild the reference separately for the row block and the column block
+                rr = _ttm_ref(E, spec, key, M, N)
+                E.true('shape', all_eq(got, rr))
+            else:
+                E.true('shape', all_eq(got, ref))
+            E.true('not_scalar', not all_int)
+        else:
+            E.true('is_tensor', E.tn.is_tensor(r))
+            E.true('scalar_iff_all_int', all_int and r.dim() == 0)
+    else:
+        E.true('raises_only_for_invalid_index', valid == False if isinstance(valid, bool) else ~valid)
+
+
+def _ttm_ref(E, spec, key, M, N):
+    half = len(spec) // 2
+    rows, cols = [], []
+    km = kn = 0
+    for j in range(half):
+        a, b = spec[j], spec[j + half]
+        if a == 'none':
+            rows.append(1)
+            cols.append(1)
+            continue
+        if a == 'int':
+            km += 1
+            kn += 1
+            continue
+        sa, sb = key[j], key[j + half]
+        rows.append(_ref_slice_len(M[km], sa.start, sa.stop, sa.step))
+        cols.append(_ref_slice_len(N[kn], sb.start, sb.stop, sb.step))
+        km += 1
+        kn += 1
+    return rows + cols
